@@ -8,6 +8,7 @@ package c18
 import (
 	"fmt"
 	"strings"
+	"time"
 
 	"verif/harness/vf"
 )
@@ -97,6 +98,7 @@ func readerFormats() []readerFmt {
 				"a,b\n1,2\n\nc\n3\n",
 				"a,a,a\n1,2,3\n",
 				"a,b\n#c,d\n1,2\n",
+				"a,b\n\"#c\",d\n#e\n",
 				"a, b\n1, \"2\"\n",
 				"a\n\"\"\n",
 				"a,b\n1,\n,2\n,\n",
@@ -384,7 +386,7 @@ func readerArgs(f *readerFmt, v *variant) []string {
 	}
 	hasOut := false
 	for _, fl := range v.flags {
-		if strings.HasPrefix(fl, "--o") && fl != "--oflatsep" || fl == "-N" && false {
+		if strings.HasPrefix(fl, "--o") && fl != "--oflatsep" {
 			hasOut = true
 		}
 	}
@@ -396,14 +398,12 @@ func readerArgs(f *readerFmt, v *variant) []string {
 	return args
 }
 
-const readerBlock = 256
-
 func isNontrivial(oc outcome) bool {
 	return oc.class != ocOK || strings.ContainsAny(oc.stdout, "{=|") || len(strings.TrimSpace(oc.stdout)) > 2
 }
 
 func readersWorker(w *vf.Worker) {
-	x := newRunner(w)
+	x := newRunner(w, 4, 6*time.Second)
 	var idx uint64
 	buf := make([]int, 0, 16)
 	fmts := readerFormats()
@@ -417,43 +417,74 @@ func readersWorker(w *vf.Worker) {
 			total := countUpTo(k, L)
 			args := readerArgs(f, v)
 			cfg := f.name + "/" + v.name
-			for start := uint64(0); start < total; start += readerBlock {
+			symHits := make([]int64, k)
+			var nRun int64
+			var sb strings.Builder
+			for n := uint64(0); n < total; n++ {
 				idx++
 				if !w.Mine(idx) {
 					continue
 				}
 				w.Begin(idx)
-				end := start + readerBlock
-				if end > total {
-					end = total
+				buf = nth(k, n, buf)
+				sb.Reset()
+				for _, s := range buf {
+					sb.WriteString(alpha[s])
+					symHits[s]++
 				}
-				symHits := make([]int64, k)
-				var sb strings.Builder
-				for n := start; n < end; n++ {
+				in := sb.String()
+				m := &mcase{Fam: "reader", Cfg: cfg, Size: len(buf), Desc: `"` + vis(in) + `"`, Args: args, Stdin: in}
+				if x.poisoned(m) {
+					continue
+				}
+				oc := x.run(m)
+				nRun++
+				if isNontrivial(oc) {
+					w.Nontrivial(1)
+				}
+				w.AddSet("reader-outcomes", f.name+":"+oc.class)
+				if oc.class == ocBareErr || oc.class == ocSilentNZ {
+					w.AddSet("bare-error-texts", "reader/"+f.name+": "+short(strings.TrimSpace(firstLines(oc.stderr, 1)), 100))
+				}
+			}
+			w.Count("cases:reader:"+f.name, nRun)
+			w.Count("variant:"+cfg, nRun)
+			for s, h := range symHits {
+				w.Count("sym:"+f.name+":"+vis(alpha[s]), h)
+			}
+			// --- the same bytes arriving in two reads, split at every byte position (base variants, shorter strings)
+			if v.tier == 0 {
+				L2 := lengthsFor(w.Quick(), k)[2]
+				total2 := countUpTo(k, L2)
+				var nSplit int64
+				for n := uint64(0); n < total2; n++ {
 					buf = nth(k, n, buf)
 					sb.Reset()
 					for _, s := range buf {
 						sb.WriteString(alpha[s])
-						symHits[s]++
 					}
 					in := sb.String()
-					m := &mcase{Fam: "reader", Cfg: cfg, Size: len(buf), Desc: `"` + vis(in) + `"`, Args: args, Stdin: in}
-					oc := x.run(m)
-					if isNontrivial(oc) {
-						w.Nontrivial(1)
-					}
-					w.AddSet("reader-outcomes", f.name+":"+oc.class)
-					if oc.class == ocBareErr || oc.class == ocSilentNZ {
-						w.AddSet("bare-error-texts", "reader/"+f.name+": "+short(strings.TrimSpace(firstLines(oc.stderr, 1)), 100))
+					for sp := 1; sp < len(in); sp++ {
+						idx++
+						if !w.Mine(idx) {
+							continue
+						}
+						w.Begin(idx)
+						m := &mcase{Fam: "reader2", Cfg: cfg, Size: len(buf), Desc: `"` + vis(in[:sp]) + `"+"` + vis(in[sp:]) + `"`, Args: args, Stdin: in, Split: sp}
+						if x.poisoned(m) {
+							continue
+						}
+						oc := x.run(m)
+						nSplit++
+						if isNontrivial(oc) {
+							w.Nontrivial(1)
+						}
+						w.AddSet("reader-outcomes", f.name+":two-reads:"+oc.class)
 					}
 				}
-				w.Count("cases:reader:"+f.name, int64(end-start))
-				w.Count("variant:"+cfg, int64(end-start))
-				for s, h := range symHits {
-					w.Count("sym:"+f.name+":"+vis(alpha[s]), h)
-				}
+				w.Count("cases:reader-two-reads:"+f.name, nSplit)
 			}
-			if vi == 0 && fi == 0 {
+			if vi == 0 && fi == 0 && w.Shard == 0 {
 				w.Sample(map[string]any{"family": "reader", "config": cfg, "alphabet": visAll(alpha), "max_len": L, "cases": total, "args": args})
 			}
 		}
@@ -472,13 +503,34 @@ func visAll(a []string) []string {
 // (replace / insert / delete at every position, every alphabet symbol) of the
 // valid documents, under the base variant and the tier-1 reader variants.
 func docsWorker(w *vf.Worker) {
-	x := newRunner(w)
+	x := newRunner(w, 4, 6*time.Second)
 	var idx uint64
 	fmts := readerFormats()
 	for fi := range fmts {
 		f := &fmts[fi]
 		if len(f.docs) == 0 {
 			continue
+		}
+		var nTrunc, nMut int64
+		one := func(m *mcase, kind string) {
+			idx++
+			if !w.Mine(idx) {
+				return
+			}
+			w.Begin(idx)
+			if x.poisoned(m) {
+				return
+			}
+			oc := x.run(m)
+			if isNontrivial(oc) {
+				w.Nontrivial(1)
+			}
+			w.AddSet("reader-outcomes", f.name+":"+kind+":"+oc.class)
+			if kind == "trunc" {
+				nTrunc++
+			} else {
+				nMut++
+			}
 		}
 		// variants used for documents: base + reader-side options (tier <= 1)
 		for vi := range f.variants {
@@ -490,19 +542,8 @@ func docsWorker(w *vf.Worker) {
 			cfg := f.name + "/" + v.name
 			for di, doc := range f.docs {
 				// --- truncations: all variants
-				idx++
-				if w.Mine(idx) {
-					w.Begin(idx)
-					for cut := 0; cut <= len(doc); cut++ {
-						in := doc[:cut]
-						m := &mcase{Fam: "trunc", Cfg: cfg, Size: cut, Desc: fmt.Sprintf("doc%d[:%d]", di, cut), Args: args, Stdin: in}
-						oc := x.run(m)
-						if isNontrivial(oc) {
-							w.Nontrivial(1)
-						}
-						w.AddSet("reader-outcomes", f.name+":trunc:"+oc.class)
-					}
-					w.Count("cases:trunc:"+f.name, int64(len(doc)+1))
+				for cut := 0; cut <= len(doc); cut++ {
+					one(&mcase{Fam: "trunc", Cfg: cfg, Size: cut, Desc: fmt.Sprintf("doc%d[:%d]", di, cut), Args: args, Stdin: doc[:cut]}, "trunc")
 				}
 				// --- mutations: base variant always; option variants in the thorough tier
 				if v.tier == 1 && w.Quick() {
@@ -512,20 +553,8 @@ func docsWorker(w *vf.Worker) {
 					continue
 				}
 				for pos := 0; pos <= len(doc); pos++ {
-					idx++
-					if !w.Mine(idx) {
-						continue
-					}
-					w.Begin(idx)
-					var n int64
 					try := func(op string, in string, sym string) {
-						m := &mcase{Fam: "mut", Cfg: cfg, Size: len(in), Desc: fmt.Sprintf("doc%d:%s@%d:%s", di, op, pos, vis(sym)), Args: args, Stdin: in}
-						oc := x.run(m)
-						if isNontrivial(oc) {
-							w.Nontrivial(1)
-						}
-						w.AddSet("reader-outcomes", f.name+":mut:"+oc.class)
-						n++
+						one(&mcase{Fam: "mut", Cfg: cfg, Size: len(in), Desc: fmt.Sprintf("doc%d:%s@%d:%s", di, op, pos, vis(sym)), Args: args, Stdin: in}, "mut")
 					}
 					for _, sym := range f.alphabet {
 						try("ins", doc[:pos]+sym+doc[pos:], sym)
@@ -541,10 +570,13 @@ func docsWorker(w *vf.Worker) {
 							try("swap", doc[:pos]+doc[pos+1:pos+2]+doc[pos:pos+1]+doc[pos+2:], "")
 						}
 					}
-					w.Count("cases:mut:"+f.name, n)
 				}
 			}
 		}
+		w.Count("cases:trunc:"+f.name, nTrunc)
+		w.Count("cases:mut:"+f.name, nMut)
 	}
-	w.Sample(map[string]any{"family": "trunc+mut", "formats": len(fmts), "docs_per_format": len(fmts[0].docs)})
+	if w.Shard == 0 {
+		w.Sample(map[string]any{"family": "trunc+mut", "formats": len(fmts), "docs_per_format": len(fmts[0].docs)})
+	}
 }
